@@ -223,6 +223,8 @@ func (w *worker) Start() {
 	w.wg.Add(1)
 	go func() {
 		defer func() {
+			// The lease is not renewed past this point, the replication routine must not rely on it anymore.
+			w.leased.Store(false)
 			w.log.Info("lease routine stopped")
 			w.wg.Done()
 		}()
@@ -304,6 +306,13 @@ func (w *worker) Start() {
 			case <-w.immediate:
 			case <-w.closer:
 				return
+			}
+
+			// A tick pending together with the close request must not start another round (select picks at random).
+			select {
+			case <-w.closer:
+				return
+			default:
 			}
 
 			if !w.leased.Load() {
